@@ -25,7 +25,9 @@ HARNESS = os.path.join(VERIF, "harness")
 BUILD = os.path.join(VERIF, ".build")
 MAXRSS_MB = int(os.environ.get("VERIF_MAXRSS_MB", "4096"))
 REPLAYS = os.path.join(VERIF, "replays")
-EVIDENCE = os.path.join(VERIF, "evidence")
+# runs against a scratch tree (VERIF_MODFILE) may redirect their evidence so that /verif/evidence
+# only ever describes /repo
+EVIDENCE = os.environ.get("VERIF_EVIDENCE_DIR") or os.path.join(VERIF, "evidence")
 CORPUS = os.path.join(VERIF, "corpus")
 KNOWN = os.path.join(VERIF, "known_findings.jsonl")
 NCPU = os.cpu_count() or 4
